@@ -29,7 +29,7 @@ func (c *c01Case) profile() *gamma.Profile {
 	if c.Window != "" {
 		return gamma.Window(c.K*c.M, c.Window, c.Seed)
 	}
-	return gamma.Make(c.Inner, c.KeySet, c.K, c.M, c.Seed)
+	return gamma.Cached(c.Inner, c.KeySet, c.K, c.M, c.Seed)
 }
 
 func iterSlice(b *roaring.Bitmap, seek uint64) []uint64 {
